@@ -169,6 +169,22 @@ pub fn cases(tier: &str, seed: u64) -> Vec<Case> {
         for x in &strings { args.push(' '); args.push_str(&hex(x)); }
         let attrs = t.attributes();
         let mut c = Case::new(format!("txt.attrs {}", args), format!("ok {}", show_attrs(&attrs))).tag("attributes");
+        // the same record assembled through the text entry points (`default`, `add_string`, `with_string`)
+        if strings.iter().all(|x| std::str::from_utf8(x).is_ok()) {
+            let texts: Vec<String> = strings.iter().map(|x| String::from_utf8(x.clone()).unwrap()).collect();
+            let mut t2 = TXT::default();
+            let mut t3 = TXT::new();
+            let mut ok = true;
+            for x in &texts { ok &= t2.add_string(x).is_ok(); t3 = match t3.with_string(x) { Ok(y) => y, Err(_) => { ok = false; TXT::new() } }; }
+            let (mut b1, mut b2, mut b3) = (vec![], vec![], vec![]);
+            let _ = simple_dns::verif::rdata_write(&rdata::RData::TXT(t.clone()), &mut b1);
+            let _ = simple_dns::verif::rdata_write(&rdata::RData::TXT(t2.clone()), &mut b2);
+            let _ = simple_dns::verif::rdata_write(&rdata::RData::TXT(t3.clone()), &mut b3);
+            if !ok || t2.verif_strings() != t.verif_strings() || t3.verif_strings() != t.verif_strings() || b1 != b2 || b1 != b3
+                || simple_dns::verif::rdata_len(&rdata::RData::TXT(t2.clone())) != b2.len() || t2.attributes() != attrs {
+                c = c.fail("txt-entry-points", format!("add_string / with_string build another record than add_char_string for {:?}", texts));
+            }
+        }
         // first occurrence wins, absent vs empty
         let mut want: HashMap<String, Option<String>> = HashMap::new();
         for s in &strings {
